@@ -90,6 +90,7 @@ func runWorld(seed uint64, strat verifsim.Strategy, segMax int, flags []string, 
 			wsIPLimiter = newIPLimiter(0, 1)
 			sessionIPLimiter = newIPLimiter(0, 1)
 			wsConnLimiter = newConnLimiter(0)
+			receiverSlots = sessionSlots{}
 			os.Args = append([]string{"thruserv"}, flags...)
 			verifsim.HTTPServe = func(addr string, h http.Handler) error {
 				if h == nil {
